@@ -1211,6 +1211,25 @@ def c15_tasks(tier):
                     sc5["actors"].append(dict(name="usr", argv=["jade", "try-submit-jobs", "{stage}"], host="login4", guard="pipeline_stage_submitted"))
                     ut = dict(id=f"pipe-{'+'.join(combo)}-usr", scen=sc5, oracles=["Obs", "C15"], budget=(1, 0), cls="pipeline+user-round", weight=8)
                     tasks += shard([ut], 16 if combo[0] != "chain" else 6)
+                if not fails and n == 2 and combo in (("two-batches", "one"), ("one-batch2", "one"), ("chain", "one")):
+                    # (a) the scheduler's status query fails for a whole round of one process (the round dies, the others go on)
+                    import copy
+
+                    scq = copy.deepcopy(sc)
+                    scq["free_at_poll"] = True
+                    tasks.append(dict(id=f"pipe-{'+'.join(combo)}-squeue-fault", scen=scq, oracles=["Obs", "C15"], budget=(0, 1),
+                                      fault=dict(plan="c11", kinds=["squeue"]), cls="pipeline+squeue-fault"))
+                    # (b) a failing first job with cancel flags on the others: canceled jobs have results, they are not missing
+                    scf = copy.deepcopy(sc)
+                    first = stages[0]["jobs"][0]["name"]
+                    scf["exit_codes"] = {first: 1}
+                    for st_ in scf["stages"]:
+                        for j_ in st_["jobs"]:
+                            j_["cancel"] = True
+                    for j_ in scf["jobs"]:
+                        j_["cancel"] = True
+                    tasks.append(dict(id=f"pipe-{'+'.join(combo)}-fail-cancelflags", scen=scf, oracles=["Obs", "C15"], budget=(0, 0),
+                                      cls="pipeline+failure+cancel-flags"))
                 if not fails and n == 2 and combo[0] in ("one", "two-batches", "local"):
                     import copy
 
